@@ -19,6 +19,7 @@ import (
 	"net/url"
 	"os"
 	"reflect"
+	"sort"
 	"strings"
 	"testing"
 
@@ -43,6 +44,9 @@ type c14Case struct {
 	// Fixed[i] > 0: instance i is built as c14FixedTypes[Fixed[i]-1] when that type can hold it
 	// (the plain typed containers a Go caller passes most often).
 	Fixed []int `json:"fixed,omitempty"`
+	// Orders: every object schema of the tree gets a PropertyOrder (stale names first and in the
+	// middle, the real names in descending order), as a caller who builds schemas in Go may set it.
+	Orders bool `json:"orders,omitempty"`
 }
 
 var c14FixedTypes = []reflect.Type{
@@ -85,6 +89,26 @@ func checkC14(c *c14Case, rec *ev.Recorder) (fl *failure, digest string) {
 		mk := func() (*jsonschema.Schema, error) {
 			var s jsonschema.Schema
 			err := json.Unmarshal([]byte(rootText), &s)
+			if err == nil && c.Orders {
+				for _, x := range schemaList(&s) {
+					if len(x.Properties) == 0 {
+						continue
+					}
+					ks := make([]string, 0, len(x.Properties))
+					for k := range x.Properties {
+						ks = append(ks, k)
+					}
+					sort.Sort(sort.Reverse(sort.StringSlice(ks)))
+					po := []string{"zz-stale-first"}
+					for i, k := range ks {
+						po = append(po, k)
+						if i == 0 {
+							po = append(po, "zz-stale-middle")
+						}
+					}
+					x.PropertyOrder = po
+				}
+			}
 			return &s, err
 		}
 		s, err := mk()
@@ -191,6 +215,26 @@ func checkC14(c *c14Case, rec *ev.Recorder) (fl *failure, digest string) {
 			}
 			if f := pure(fmt.Sprintf("step %d (%s)", step, op)); f != nil {
 				return f
+			}
+		}
+		// the verdicts are a function of (schema, instance) alone: on a Resolved of its own and in
+		// the opposite order (so that whatever an earlier call may have left behind in pools or
+		// caches is different), every instance gets the verdict it got in the history
+		if rs != nil && len(seenVerdict) > 0 {
+			s3, err := mk()
+			if err == nil {
+				if rs3, err := s3.Resolve(opts); err == nil {
+					for i := len(insts) - 1; i >= 0; i-- {
+						if !seenVerdict[i] {
+							continue
+						}
+						for rep := 0; rep < 2; rep++ {
+							if got := rs3.Validate(c.build(i)) == nil; got != firstVerdict[i] {
+								return failf("instance %d is accepted=%v in the history but accepted=%v when the same instances are validated in the opposite order on a freshly resolved copy of the schema (the verdict depends on earlier calls)\n doc: %s\n instance: %s", i, firstVerdict[i], got, rootText, c.Instances[i].JSON())
+							}
+						}
+					}
+				}
 			}
 		}
 		return nil
@@ -407,6 +451,8 @@ func TestC14(t *testing.T) {
 			(&repr.Builder{C: l}).Build(v)
 			c.Choices = append(c.Choices, l.Log)
 		}
+		c.Orders = rapid.IntRange(0, 3).Draw(t, "orders") == 0
+		rec.ClassIf(c.Orders, "schemas:with-PropertyOrder-incl-stale-names")
 		c.Ops = []string{"resolve"}
 		mixed := fam == 2
 		rec.ClassIf(mixed, "universe:documents-of-different-drafts")
